@@ -361,6 +361,19 @@ theorem ccl1l2_getD (E : Env K) (pw : List K) (d m : ℕ) (lam s : K) (g : Optio
     rw [idxMap_getD _ _ _ _ (by rw [hx]; exact hj')]
   rw [Finset.sum_congr rfl (fun k' hk' => by rw [hdiff k' (mem_range.mp hk')]), hdiff k hk]
 
+/-! entries of an appended list (separable sums) -/
+omit [LinearOrder K] [IsStrictOrderedRing K] in
+theorem getD_app_left (A B : List K) (i : ℕ) (h : i < A.length) :
+    (A ++ B).getD i 0 = A.getD i 0 := by
+  simp [List.getD_eq_getElem?_getD, List.getElem?_append_left h]
+
+omit [LinearOrder K] [IsStrictOrderedRing K] in
+theorem getD_app_right (A B : List K) (n i : ℕ) (h : A.length = n) :
+    (A ++ B).getD (n + i) 0 = B.getD i 0 := by
+  simp [List.getD_eq_getElem?_getD, List.getElem?_append_right (l₁ := A) (l₂ := B)
+    (i := n + i) (by omega), h]
+
+
 end Group
 
 /-! ## the abstract layer: functionals on a real inner product space -/
